@@ -2,7 +2,7 @@
 # usage: tools/confirm_seed.sh <seed-dir> <worktree>
 # Confirms: demo FAILs with the patch, existing tests still pass (171), demo PASSes without.
 d=$1; W=$2
-run_demo() { (cd $W && PYTHONPATH=$W TYPESHED_HOME=/tmp/envkit/typeshed_min timeout 600 /venv/bin/python $d/demo.py >/tmp/demo_out.txt 2>&1; echo $?); }
+run_demo() { (cd $W && PYTHONPATH=$W TYPESHED_HOME=/tmp/envkit/typeshed_min timeout 600 /venv/bin/python $d/demo.py >/tmp/demo_out_$(basename $d).txt 2>&1; echo $?); }
 cd $W || exit 2
 git checkout -q -- . ; git clean -fdq -- pytype pytype_extensions 2>/dev/null
 git apply --check $d/patch.diff || { echo "RESULT $(basename $d): patch does not apply"; exit 1; }
@@ -11,8 +11,8 @@ needs_ext=0; if grep -q "typegraph/.*\.\(cc\|h\)" $d/patch.diff || grep -q "cfg\
 rm -f $W/pytype/typegraph/cfg*.so
 tests=$(/venv/bin/python -m pytest -q -p no:cacheprovider --timeout=900 --continue-on-collection-errors 2>&1 | tail -1)
 [ $needs_ext = 1 ] && /tmp/envkit/build_ext.sh $W >/dev/null 2>&1
-with=$(run_demo); with_out=$(tail -2 /tmp/demo_out.txt | tr '\n' ' ')
+with=$(run_demo); with_out=$(tail -2 /tmp/demo_out_$(basename $d).txt | tr '\n' ' ')
 git checkout -q -- . ; git clean -fdq -- pytype pytype_extensions 2>/dev/null
 [ $needs_ext = 1 ] && /tmp/envkit/build_ext.sh $W >/dev/null 2>&1
-without=$(run_demo); without_out=$(tail -2 /tmp/demo_out.txt | tr '\n' ' ')
+without=$(run_demo); without_out=$(tail -2 /tmp/demo_out_$(basename $d).txt | tr '\n' ' ')
 echo "RESULT $(basename $d): with_patch_exit=$with [$with_out] without_patch_exit=$without [$without_out] tests='$tests'"
